@@ -427,6 +427,10 @@ class Resolver:
                 return [CallSite(q, n, "call", self._ctor(tgt), args=list(n.args), kwargs=kwargs, external=f"ctor:{tgt}")]
             if isinstance(f.value, ast.Call) and isinstance(f.value.func, ast.Name) and f.value.func.id == "super":
                 return [CallSite(q, n, "call", [], external=f"super().{f.attr}", args=list(n.args), kwargs=kwargs)]
+            cb = self._transformer_callbacks(mi, f) if f.attr == "parse" else None
+            if cb:
+                # the embedded Lark parser runs the transformer's callbacks while it parses
+                return [CallSite(q, n, "call", cb, external="lark:parse+callbacks", args=[], kwargs={}, receiver=f.value, bound=True)]
             alts = self.expr_alts(fi, f.value)
             t = self._methods_of(alts, f.attr)
             if t:
@@ -453,6 +457,37 @@ class Resolver:
             return [CallSite(q, n, "call", [], external=f"attr:{ast.unparse(f)}", args=list(n.args),
                              kwargs=kwargs, receiver=f.value, unresolved=bool(pk) or not alts)]
         return [CallSite(q, n, "call", [], external=f"expr:{ast.unparse(f)[:40]}", args=list(n.args), kwargs=kwargs, unresolved=True)]
+
+    def _transformer_callbacks(self, mi: ModuleInfo, f: ast.Attribute) -> List[str]:
+        """`parser.parse(..)` where `parser` is a module-level object built as Parser(transformer=T()):
+        the methods of T (they are called back by the parser runtime)."""
+        if not isinstance(f.value, ast.Name):
+            return []
+        P = self.prog
+        home, name = mi, f.value.id
+        if name in mi.imports:
+            m_, a_ = mi.imports[name]
+            if m_ not in P.modules or not a_:
+                return []
+            home, name = P.modules[m_], a_
+        sts = home.globals_assigned.get(name) or []
+        for st in sts:
+            v = getattr(st, "value", None)
+            if isinstance(v, ast.Call):
+                for k in v.keywords:
+                    if k.arg == "transformer" and isinstance(k.value, ast.Call) and isinstance(k.value.func, ast.Name):
+                        ck = home.classes.get(k.value.func.id)
+                        ci = P.classes.get(ck) if ck else None
+                        if ci is not None:
+                            out = [q_ for q_ in ci.methods.values() if q_ in P.functions]
+                            for rhs in ci.aliases.values():
+                                for x in ast.walk(rhs):
+                                    if isinstance(x, ast.Name):
+                                        t_ = P.resolve_name(home, x.id)
+                                        if t_ and t_ in P.functions and t_ not in out:
+                                            out.append(t_)
+                            return out
+        return []
 
     def _element_methods(self, fi: FuncInfo, seq: ast.AST, dunder: str) -> List[str]:
         """Methods `dunder` of the element type of a sequence expression, from mypy's
